@@ -710,6 +710,7 @@ def g_where(b):
         # the condition as a (constant) tensor, e.g. a stored boolean / integer mask
         cn = b.leaf(tuple(ec[2]), dtype=ec[1], values=np.array(ec[3], dtype=ec[1]).reshape(ec[2]),
                     constant=True if np.dtype(ec[1]).kind == "f" else None, layout="C")
+        b.meta[cn]["tensor"] = False   # a mask: not offered to the other node generators as an operand (bool/int operands change dtypes)
         ec = R(cn)
     args = [ec, R(x), y] if rng.random() < 0.5 else [ec, y, R(x)]
     return b.call("where", args, sp=rng.choice(["mg", "np"]))
